@@ -230,6 +230,31 @@ def number_token_mutants(data):
                 yield b"\n".join(out), "number-token:%s:%s:order%d" % (tok.decode(), pos, n)
 
 
+WINDOW = 1048576 + 4096      # FilePiece's first mapping with the default min_buffer: 1 MB rounded up plus a page
+
+
+def long_line_mutants(rng, data, n_lengths):
+    """lines / tokens longer than FilePiece's mapping window, in a file that is itself longer than the window (so the reader has
+    to remap and grow the window): a long # comment before \\data\\ (valid), a long blank line before \\1-grams: (valid), an
+    extra unigram with a very long word (valid, count adjusted), a very long junk token where the first probability should be
+    (malformed).  All near the start of the file (the model's cost per later number is linear in what is left of the file)."""
+    lines = data.split(b"\n")
+    kinds = classify(lines)
+    lengths = [WINDOW + 1, WINDOW - 1, WINDOW, 2 * WINDOW + rng.range(1, 5000), 3000000, WINDOW + rng.range(2, 100000)]
+    rng.shuffle(lengths)
+    h1 = next((i for i, k in enumerate(kinds) if k == ("header", 1)), None)
+    for n in lengths[:n_lengths]:
+        yield b"# " + b"c" * n + b"\n" + data, "long-line:comment:%d" % n
+        if h1 is not None:
+            out = list(lines); out.insert(h1, b" " * n)
+            yield b"\n".join(out), "long-line:blank:%d" % n
+            out = list(lines); out.insert(h1 + 1, b"-2.5\t" + b"W" * n + b"\t-0.25")
+            adjust_count(out, classify(out), 1, 1)
+            yield b"\n".join(out), "long-line:word:%d" % n
+            out = list(lines); out[h1 + 1] = b"9" * n + b"x" + out[h1 + 1]
+            yield b"\n".join(out), "long-line:junk-number:%d" % n
+
+
 def pick_line(rng, kinds, want):
     idx = [i for i, k in enumerate(kinds) if k[0] in want]
     return rng.choice(idx) if idx else None
